@@ -412,3 +412,19 @@ func init() {
 		mutant{Name: "struct-literal-wraps-for-the-first-destination", Prop: "C01", File: "interp/run.go", Old: "\t\tif dest := n.anc.child[0]; n.findex == dest.findex && n.level == dest.level {\n\t\t\treturn dest.typ\n\t\t}\n", New: "\t\treturn n.anc.child[0].typ\n", Rule: "R01.35", Key: "destType/left-hand-side-type-only-when-built-there"},
 	)
 }
+
+func init() {
+	addMutants(
+		// round-7 seed C02-2
+		mutant{Name: "interface-result-cell-allocated-once", Prop: "C02", File: "interp/value.go", Old: "\t\treturn func(f *frame) reflect.Value {\n\t\t\td := value(f)\n\t\t\tv := reflect.New(t).Elem()\n\t\t\td.Set(reflect.ValueOf(valueInterface{n, v}))\n\t\t\treturn v\n\t\t}\n", New: "\t\tv := reflect.New(t).Elem()\n\t\tw := reflect.ValueOf(valueInterface{n, v})\n\t\treturn func(f *frame) reflect.Value {\n\t\t\tvalue(f).Set(w)\n\t\t\treturn v\n\t\t}\n", Rule: "R02.19", Key: "genValueOutput/closure#1/result-location-allocated-per-execution"},
+	)
+}
+
+func init() {
+	addMutants(
+		// round-7 seeds on C12
+		mutant{Name: "call-without-value-unpacked-as-no-argument", Prop: "C12", File: "interp/typecheck.go", Old: "\tif len(child) == 1 && isCall(child[0]) && child[0].child[0].typ.numOut() > 1 {\n", New: "\tif len(child) == 1 && isCall(child[0]) && child[0].child[0].typ.numOut() != 1 {\n", Rule: "R12.23", Key: "typecheck.unpackParams/unpacking#1/only-for-several-values"},
+		mutant{Name: "function-values-comparable", Prop: "C12", File: "interp/type.go", Old: "func (t *itype) comparable() bool {\n", New: "func (t *itype) comparable() bool {\n\tswitch t.cat {\n\tcase ptrT, chanT, funcT:\n\t\treturn true\n\t}\n", Rule: "R12.25", Key: "itype.comparable/functions-slices-maps-never-comparable"},
+		mutant{Name: "return-checked-against-a-remembered-function", Prop: "C12", File: "interp/cfg.go", Old: "\t\t\t\ttyp, err = nodeType(interp, sc.upperLevel(), returnSig.child[2].fieldType(i))\n\t\t\t\tif err != nil {\n\t\t\t\t\treturn\n\t\t\t\t}\n", New: "\t\t\t\ttyp = lastResults[i%len(lastResults)]\n", Also: [][3]string{{"interp/cfg.go", "\tvar initNodes []*node\n\tvar err error\n", "\tvar initNodes []*node\n\tvar err error\n\tlastResults := []*itype{nil}\n"}}, Rule: "R12.24", Key: "cfg/case:returnStmt/operand-check#1/result-types-of-the-current-function"},
+	)
+}
